@@ -318,14 +318,25 @@ fn kind_of(_k: u64, e: Entry) -> Kind {
     e.kind()
 }
 
-fn gen_history(u: &mut Choice, profile: &Profile) -> CaseRec {
+pub fn gen_history(u: &mut Choice, profile: &Profile) -> CaseRec {
     let kind = if u.chance(128) { Kind::Response } else { Kind::Request };
     let es = entries_of(kind);
     let (pbuf, nlines) = gen::message(u, kind, profile);
     let mut pcfg = pick_cfg(u);
     let pentry = pick_entry(u, kind, &mut pcfg);
-    let cap0 = pick_cap(u, nlines + 1);
+    // occasionally an array whose length sits at a narrow-counter boundary
+    let cap0 = if u.chance(3) { [255usize, 256, 257, 65_535, 65_536, 65_537, 70_000][u.below(7)] } else { pick_cap(u, nlines + 1) };
     let nops = u.range(1, 4);
+    // shrinking view: the probe is a short prefix of a message that an earlier call saw in
+    // full at the same address (a parser that remembers where a field started must not
+    // trust that the bytes after it are still part of the buffer)
+    let shrink = u.chance(24);
+    let (pbuf, shrink_tail) = if shrink && !pbuf.is_empty() {
+        let k = if u.chance(128) { u.below(pbuf.len().min(13)) } else { u.below(pbuf.len()) };
+        (pbuf[..k].to_vec(), pbuf[k..].to_vec())
+    } else {
+        (pbuf, vec![])
+    };
     let mut bufs = vec![];
     let mut aux = vec![];
     let readme_loop = u.chance(80);
@@ -338,13 +349,26 @@ fn gen_history(u: &mut Choice, profile: &Profile) -> CaseRec {
             (0..n).map(|i| b"XY\nZ 9"[i % 6]).collect()
         }
     };
-    let after: Vec<u8> = if u.chance(80) { b"trailing body\r\n\r\n".to_vec() } else { vec![] };
+    let after: Vec<u8> = if shrink {
+        shrink_tail.clone()
+    } else if u.chance(80) {
+        b"trailing body\r\n\r\n".to_vec()
+    } else {
+        vec![]
+    };
     let p0 = before.len();
     let alen = p0 + pbuf.len() + after.len();
     for i in 0..nops {
         let mut kind = 0u64;
         let (mut a, mut b) = (0usize, 0usize);
-        let buf = if readme_loop {
+        let buf = if shrink && (i == 0 || u.chance(128)) {
+            // the longer view: from the probe's start to the end of the full message (or a bit less)
+            kind = 1;
+            a = p0;
+            b = alen - if u.chance(64) { u.below(alen - p0 + 1).min(8) } else { 0 };
+            b = b.max(a);
+            vec![]
+        } else if readme_loop {
             // growing prefixes of the probe buffer, in place: the documented parse / read more / parse again loop
             let k = (pbuf.len() * (i + 1)) / (nops + 1);
             let jitter = u.below(8);
@@ -421,6 +445,26 @@ pub fn run(r: &Runner) {
         &|ctx, l, rec| check(r, ctx, l, rec),
     );
     // structured: every ordered pair (history message, probe message) from a fixed list × entry points
+    // arrays whose length sits at a narrow-counter boundary, reused after a non-Complete call
+    r.par_enum("capacities {255,256,257,65535,65536,65537,131072} × {request,response} × 4×4 entry points × 3 non-completing history messages, then a complete probe", 7 * 2 * 16 * 3, |ctx, l, idx| {
+        let mut x = idx;
+        let hm = (x % 3) as usize;
+        x /= 3;
+        let pe = (x % 4) as usize;
+        x /= 4;
+        let he = (x % 4) as usize;
+        x /= 4;
+        let kind = if x % 2 == 0 { Kind::Request } else { Kind::Response };
+        let cap = [255usize, 256, 257, 65_535, 65_536, 65_537, 131_072][(x / 2) as usize];
+        let msgs: &[&[u8]] = if kind == Kind::Request { &REQS } else { &RESPS };
+        let es = entries_of(kind);
+        // history: a Partial with headers, a Partial in the start line, an Err after a header
+        let hist = [msgs[2], msgs[3], msgs[6]][hm];
+        let mut rec = CaseRec::new("history", es[pe], 0, cap, msgs[0].to_vec());
+        rec.bufs = vec![hist.to_vec(), vec![], vec![]];
+        rec.aux = vec![es[he] as u64, 0, 4, 0, 0, 0, 4];
+        check(r, ctx, l, &rec)
+    });
     let total = 2 * 8 * 8 * 4 * 4 * 3;
     r.par_enum("every ordered pair (history message, probe message) of 8 requests / 8 responses × 4×4 entry points × capacities {0,2,8}", total, |ctx, l, idx| {
         let mut x = idx;
